@@ -78,11 +78,14 @@ Definition shape (vr : variant) (n : note) (l : list seg) : Prop :=
 Lemma forallb_deps_map imps : forallb is_deps (map DepsPublish imps) = true.
 Proof. induction imps; simpl; auto. Qed.
 
+Lemma forallb_deps_segs u t : forallb is_deps (deps_segs u t) = true.
+Proof. unfold deps_segs. destruct (is_file u); [simpl; apply forallb_deps_map|reflexivity]. Qed.
+
 Lemma of_note_pre vr n : exists pre, forallb is_deps pre = true /\ of_note vr n = pre ++ [commit vr n; final n].
 Proof.
   destruct n as [o u v t|u]; simpl.
   - destruct (tok t) eqn:T.
-    + exists (DepsRead :: map DepsPublish (timports t)). split; [simpl; apply forallb_deps_map|].
+    + exists (deps_segs u t). split; [apply forallb_deps_segs|].
       destruct vr; simpl; rewrite ?T; reflexivity.
     + exists []. split; [reflexivity|]. destruct vr; simpl; rewrite ?T; reflexivity.
   - exists []. split; reflexivity.
